@@ -1,8 +1,8 @@
 (* C04 - entry point of the extracted model: a case is (tag . payload) with
    tag 1 = key processor run, 2 = filter construction history, 3 = registry
-   (KeyBindings + wrappers) history. *)
+   (KeyBindings + wrappers) history, 4 = global-only wrapper with dynamic is_global. *)
 From Coq Require Import ZArith List Bool.
-From PTK Require Import Lib.Sx Model.C04_KeyProc Model.C04_Filters Model.C04_Registry.
+From PTK Require Import Lib.Sx Model.C04_KeyProc Model.C04_Filters Model.C04_Registry Model.C04_GlobalDyn.
 Import ListNotations.
 Open Scope Z_scope.
 
@@ -11,5 +11,6 @@ Definition run_C04 (c : sx) : sx :=
   | L (A 1 :: r) => run_keyproc r
   | L (A 2 :: r) => run_filters r
   | L (A 3 :: r) => run_registry r
+  | L (A 4 :: r) => run_globaldyn r
   | _ => bad_case
   end.
